@@ -16,9 +16,7 @@ var notApplicable = map[string]string{
 // not registered in MANIFEST.json yet.
 var wip = map[string]bool{}
 
-var notYet = map[string]string{
-
-	}
+var notYet = map[string]string{}
 
 func writeManifest() {
 	type lvl struct {
